@@ -60,6 +60,7 @@ type State struct {
 	lockDepth int
 	ufApps   []*Term
 	b64      []b64Pair
+	facts    map[*Term]bool // Bool terms decided on this path (used to fold map-key comparisons)
 }
 
 var stateIDs uint64
@@ -87,6 +88,12 @@ func (st *State) fork() *State {
 	n.binds = make(map[*Term]uint64, len(st.binds))
 	for k, v := range st.binds {
 		n.binds[k] = v
+	}
+	if len(st.facts) > 0 {
+		n.facts = make(map[*Term]bool, len(st.facts))
+		for k, v := range st.facts {
+			n.facts[k] = v
+		}
 	}
 	n.globOwn = false
 	st.globOwn = false
@@ -187,6 +194,15 @@ func infoFor(fn *ssa.Function) *fnInfo {
 type engineErr struct{ msg string }
 type pathEnd struct{ why string }
 type needFork struct{ t *Term }
+
+type forkCase struct {
+	cond   *Term
+	bindT  *Term
+	bindV  uint64
+	falses []*Term
+	trues  []*Term
+}
+type needForkCases struct{ cases []forkCase }
 
 func throwf(format string, a ...interface{}) {
 	panic(engineErr{fmt.Sprintf(format, a...)})
